@@ -15,14 +15,15 @@ B = {False, True}
 STRATS = {"plain", "pageby", "pageby_np_col", "pageby_np_first", "subline", "subpb", "groupby"}
 FULL = dict(Paths={"single", "multi", "figure"}, Strats=STRATS, HdrModes={"default", "explicit", "multi", "none", "off"}, NSet={0, 1, 2, 5, 12},
             MSet={1, 2, 4}, BoolSet=B, PlaceSet={"first", "last", "all"}, FootSet={"none", "table", "para"}, HFSet=B, PaperSet={"letter", "landscape", "a4", "custom"}, NrowSet={2, 3, 5, 40},
-            ShapeSet={"scalar", "col", "matrix", "recycle"}, SizeSet={"int", "half"}, KindSet={"str", "blanks", "int", "float", "null", "field", "long", "astral"}, ContigSet=B)
+            ShapeSet={"scalar", "col", "matrix", "recycle"}, SizeSet={"int", "half"}, KindSet={"str", "blanks", "int", "float", "null", "field", "long", "astral"}, ContigSet=B,
+            KeyTypeSet={"str", "int", "date", "null"}, SeqSet={"list", "tuple", "str"})
 # reduced product: two values per dimension (pairwise interactions complete)
 REDUCED = {"quick": dict(Paths={"single", "multi", "figure"}, Strats={"plain", "subpb", "groupby"}, HdrModes={"default", "off"}, NSet={0, 5}, MSet={2}, BoolSet=B,
                          PlaceSet={"all"}, FootSet={"none", "table"}, HFSet={True}, PaperSet={"letter"}, NrowSet={3}, ShapeSet={"matrix", "recycle"}, SizeSet={"int", "half"},
-                         KindSet={"null", "astral"}, ContigSet=B),
+                         KindSet={"null", "astral"}, ContigSet=B, KeyTypeSet={"str"}, SeqSet={"list"}),
            "thorough": dict(Paths={"single", "multi", "figure"}, Strats={"plain", "subpb", "groupby", "pageby"}, HdrModes={"default", "off", "multi"}, NSet={0, 5}, MSet={2}, BoolSet=B,
                             PlaceSet={"first", "all"}, FootSet={"none", "table", "para"}, HFSet=B, PaperSet={"letter"}, NrowSet={3}, ShapeSet={"matrix"},
-                            SizeSet={"int", "half"}, KindSet={"null", "field"}, ContigSet=B)}
+                            SizeSet={"int", "half"}, KindSet={"null", "field"}, ContigSet=B, KeyTypeSet={"str", "int"}, SeqSet={"list", "tuple"})}
 PLAN = {"quick": dict(sim=500), "thorough": dict(sim=30000)}
 
 
